@@ -71,6 +71,10 @@ var tokenCases = []string{"(/r)//child", "(/*)//child", "(/r)[1]//child", "(/r)/
 	"child:self", "child:child", "self:child", "self:self", "text:text", "text:self", "child:text", "text:child", "child::child:self", "self::child:self", "child::text:self", "child:*", "text:*", "child:self | text:self", "child:self + 1", "child:a", "p:self", "p:child", "q:text", "child:div", "@child:self",
 	"string-length('a b')", "string-length('a  b')", "string-length('a\tb')", "string-length( 'a b' )", "concat('x  y', '|', 'x y')", "concat('x y', '|', 'x  y')", "'  ' = ' '", "\"a\nb\" = 'a b'",
 	// literals whose content begins or ends with the OTHER kind of quote: the value is everything between the delimiters
+	// XPath has no escapes: a backslash in a literal is a backslash (the generated lexer has its own idea of escapes - open
+	// finding C08-lexical-restrictions - so no case here has a backslash before a quote, or in a double-quoted literal before
+	// anything but \\ " n r t)
+	"'C:\\temp\\new'", "string-length('a\\tb')", "'a\\\\b'", "'a\\nb' = 'a\\nb'", "translate('\\t', 't', '/')", "string-length(\"\\r\\n\")",
 	"\"'\"", "'\"'", "\"''\"", "string-length(\"'\")", "string-length('\"\"')", "concat(\"'\", 'x', \"'\")", "\"'x\"", "'x\"'", "\"it's'\" = \"it's\"", "string-length(\"'a'\")", "'\"' = \"'\"", "translate(\"'a'\", \"'\", '\"')"}
 
 func famC08(rn *Runner) {
